@@ -26,11 +26,16 @@ structure Params where
   /-- whatever way `Start` returns, somebody keeps receiving from `linesCh` (the drain goroutine is started from a
   `defer` registered before the handshake `select`), so the scanner's `linesCh <- line` never blocks for ever -/
   linesAlwaysDrained : Bool
+  /-- both `StartStream` loops of the gRPC broker (`gRPCBrokerClientImpl`, `gRPCBrokerServer`) close `quit` on EVERY
+  way out — `defer s.Close()` precedes the first statement that can return — so a `Send`/`Recv` issued when nobody
+  services the stream any more returns "broker closed" instead of blocking -/
+  streamEndClosesQuit : Bool
   deriving DecidableEq, Repr
 
 def Params.Good (P : Params) : Prop :=
   P.waitCancelsCtx = true ∧ P.waitSetsExited = true ∧ P.drainsAfterScannerError = true ∧
-  P.startWatchesExit = true ∧ P.startHasTimeout = true ∧ P.linesAlwaysDrained = true
+  P.startWatchesExit = true ∧ P.startHasTimeout = true ∧ P.linesAlwaysDrained = true ∧
+  P.streamEndClosesQuit = true
 
 instance (P : Params) : Decidable P.Good := by unfold Params.Good; exact inferInstance
 
@@ -110,10 +115,16 @@ def needsPlugin : Op → Bool
   | .exitedQuery => false
   | _ => true
 
-inductive Res | ok | err
+inductive Res | ok | err | hang
   deriving DecidableEq, Repr
 
+/-- does the operation go through the gRPC broker's `Send`/`Recv` (which wait on `quit` and nothing else)? -/
+def usesBrokerStream : Op → Bool
+  | .brokerAccept | .brokerDial => true
+  | _ => false
+
 /-- outcome of an operation issued (or in flight) when the plugin is dead, under `DeadPeerFails` -/
-def afterCrash (op : Op) : Res := if needsPlugin op then .err else .ok
+def afterCrash (P : Params) (op : Op) : Res :=
+  if needsPlugin op then (if usesBrokerStream op && !P.streamEndClosesQuit then .hang else .err) else .ok
 
 end GoPlugin.Crash
